@@ -52,6 +52,7 @@ class S:
         self.ref = ref
         self.serial = 0
         self.last = None
+        self.seen = {0}  # every index that was ever live (dead handles = seen - live)
 
 
 class Machine:
@@ -109,6 +110,12 @@ class Machine:
             if len(live) + size <= self.max_nodes + (0 if name == "one" else 1):
                 for p in live:
                     evs.append(["insert", name, p])
+        # stale handles: calls that name a deleted node must be refused and leave the store as it was
+        dead = sorted(s.seen - set(live))
+        if dead:
+            d, a = dead[0], live[-1]
+            evs += [["stale", "add_node", d], ["stale", "add_const", d], ["stale", "link_from", d, a], ["stale", "link_to", a, d],
+                    ["stale", "order", a, d], ["stale", "del_node", d], ["stale", "insert", d]]
         return permuted(evs, self.seed, "c04ev")
 
     def outcome(self, s, ev):
@@ -123,6 +130,25 @@ class Machine:
         kind = ev[0]
         fails = []
         s.serial += 1
+        if kind == "stale":
+            _, what, *args = ev
+            calls = {
+                "add_node": lambda d: h.add_node(ops.Custom("stale"), Node(d)),
+                "add_const": lambda d: h.add_const(val.TRUE, Node(d)),
+                "link_from": lambda d, a: h.add_link(OutPort(Node(d), 0), InPort(Node(a), 0)),
+                "link_to": lambda a, d: h.add_link(OutPort(Node(a), 0), InPort(Node(d), 0)),
+                "order": lambda a, d: h.add_order_link(Node(a), Node(d)),
+                "del_node": lambda d: h.delete_node(Node(d)),
+                "insert": lambda d: h.insert_hugr(_mk_fragment("one")[0], Node(d)),
+            }
+            try:
+                calls[what](*args)
+                fails.append((f"stale-handle:{what}:accepted", f"{ev}: a call naming the deleted node {args} returned normally"))
+            except Exception:  # noqa: BLE001
+                pass
+            # whatever was raised, the store must still agree with the (unchanged) model
+            fails += [(f"stale-handle:{what}:{sig}", msg) for sig, msg in compare_store(h, ref, OFFS, ctx="after-refused-call")]
+            return fails
         try:
             if kind == "add_node":
                 _, p, r = ev
@@ -199,6 +225,7 @@ class Machine:
 
             tb = traceback.extract_tb(e.__traceback__)[-1]
             return [(f"{kind}:raised:{type(e).__name__}", f"{ev} raised {type(e).__name__}: {e} at {tb.name}:{tb.lineno}")]
+        s.seen |= set(ref.nodes)
         if not light:
             fails += compare_store(h, ref, OFFS, ctx=f"after-{kind}")
         return fails
